@@ -103,17 +103,34 @@ def replay_and_validate(run, binmode, trace_module, vec_paths, name):
 
 
 def to_vector04(row):
-    f, x, L, M, yz0, xz0, yz1, xz1, sb, nt, nl0, nl1 = row
+    f, x, L, M, yz0, xz0, yz1, xz1, sb, nt, nl0, nl1, nyz0, nxz0, nyz1, nxz1 = row
     return {"id": f * 10**8 + x, "fam": FAMS[f], "L": L, "M": M, "yz0": yz0, "xz0": xz0,
-            "yz1": yz1, "xz1": xz1, "sb": sb, "nt": nt, "nl0": nl0, "nl1": nl1}
+            "yz1": yz1, "xz1": xz1, "sb": sb, "nt": nt, "nl0": nl0, "nl1": nl1,
+            "nyz0": nyz0, "nxz0": nxz0, "nyz1": nyz1, "nxz1": nxz1}
 
 
-def explain04(ev, why):
-    return {"vector": {k: ev[k] for k in ("id", "fam", "L", "M", "yz0", "xz0", "yz1", "xz1") if k in ev},
-            "true_position_deg": [ev["L"] * 360 / 2**24, ev["M"] * 360 / 2**24],
+PAIRS = ("eo", "oe")
+SAME = ("ee", "oo", "een", "oon", "eep", "oop")
+
+
+def explain04(ev, why, prev=None):
+    ev = dict(ev)
+    vec = ev.pop("vec", {})
+    out = {"vector": vec}
+    if prev is not None and "vec" in prev:
+        out["previous_vector"] = prev["vec"]      # the pairs eep / oop use its reports
+    out.update(_explain04(ev, why))
+    return out
+
+
+def _explain04(ev, why):
+    return {"true_position_deg": [ev["L"] * 360 / 2**24, ev["M"] * 360 / 2**24],
             "event": ev, "rejected_because": why,
             "explain": "cpr::airborne_position on the even/odd pair encoded (by CPR.tla) from the "
-                       "true position; Trace_CPR04.tla does not allow the recorded outcome"}
+                       "true position (eo, oe) and on same-parity pairs of two different messages (ee/oo same "
+                       "position, een/oon neighbouring lattice point, eep/oop previous vector's position); "
+                       "f0..n1 = [parity, lat_cpr, lon_cpr] as rs1090 parsed the frames, [-1,0,0] = it rejected "
+                       "the frame; Trace_CPR04.tla does not allow the recorded outcome"}
 
 
 def check(run, vec_paths=None):
@@ -155,21 +172,29 @@ def check(run, vec_paths=None):
     # replay + V
     out = replay_and_validate(run, "c04", "trace/Trace_CPR04", vec_paths, "c04")
     n_events, outcomes, samples = 0, Counter(), []
-    tcs = {}
+    tcs, alts, ncalls = {}, set(), 0
     for events, why, r in out:
         run.add_tlc(r)
         n_events += len(events)
         for ev in events:
             if "tc0" in ev:
                 tcs.setdefault(ev["fam"], set()).update((ev["tc0"], ev["tc1"]))
-            for k in ("eo", "oe", "ee", "oo"):
+            for k in PAIRS + SAME:
                 if k in ev:
-                    outcomes[("pair_" if k in ("eo", "oe") else "same_parity_") + ev[k]["o"]] += 1
+                    ncalls += 1
+                    outcomes[("pair_" if k in PAIRS else "same_parity_") + ev[k]["o"]] += 1
+            alts.update((ev["a0"], ev["a1"]))
+            for k in ("f0", "f1", "g0", "g1", "n0", "n1"):
+                if ev[k][0] < 0:
+                    outcomes["frames_not_delivered_by_decoder"] += 1
         for i, w in sorted(why.items()):
             ev = events[i - 1]
-            run.report({"check": "global", "why": w.split(":")[0]}, explain04(ev, w))
+            run.report({"check": "global", "why": w.split(":")[0]},
+                       explain04(ev, w, events[i - 2] if i >= 2 else None))
         if events and len(samples) < 3:
-            samples.append(events[len(events) // 3])
+            sm = dict(events[len(events) // 3])
+            sm.pop("vec", None)
+            samples.append(sm)
     if nvec and n_events != nvec:
         raise core.ToolError(f"harness dropped vectors: {nvec} generated, {n_events} recorded")
     run.cov.update({
@@ -178,7 +203,8 @@ def check(run, vec_paths=None):
         "distinct_nontrivial": vec_cov.get("distinct_structural_positions", 0),
         "traces_validated_against_impl": len(out),
         "events_validated": n_events,
-        "decoder_calls": 4 * n_events,
+        "decoder_calls": ncalls,
+        "altitude_field_classes": sorted(alts),
         "rejected_events": sum(len(w) for _, w, _ in out),
         "vectors_per_family": {k[4:]: v for k, v in sorted(vec_cov.items()) if k.startswith("fam_")},
         "vectors_different_band": vec_cov.get("different_band", 0),
@@ -191,7 +217,11 @@ def check(run, vec_paths=None):
         "nltable_selfcheck": note,
         "samples": samples,
         "rule": "one evaluation = one true position on the lattice u = 360/2^24 deg, encoded by CPR.tla "
-                "and decoded by cpr::airborne_position in both orders and as two same-parity pairs. "
+                "and decoded by cpr::airborne_position in both orders and as six same-parity pairs of two "
+                "different messages (same position with other type code / altitude / T / SS / SAF; the "
+                "neighbouring lattice point; the previous vector's position). Frames rotate over type codes "
+                "9..18, 20..22 and seven altitude-field classes (not available, Q=1, legal Gillham, two illegal "
+                "Gillham, all ones, all ones but Q), independently for the two reports. "
                 "EXHAUSTIVE within their windows (see spec/gen/Gen_CPRPoints.tla and the cfg): all 58 NL "
                 "transition latitudes x 2 hemispheres (every lattice point within +-DENSE, then multi-scale "
                 "steps of 16/256/4096), all 60 latitude-zone edges, both poles, the equator, the 0/+-180 "
@@ -216,7 +246,12 @@ def check(run, vec_paths=None):
 def replay(run, path):
     with open(path) as f:
         rep = json.load(f)
-    vecs = [c["vector"] for c in rep.get("cases", []) if "vector" in c]
+    vecs = []
+    for c in rep.get("cases", []):
+        if "vector" in c and c["vector"]:
+            if c.get("previous_vector"):
+                vecs.append(c["previous_vector"])
+            vecs.append(c["vector"])
     if not vecs:
         check(run)
         return run.finish()
@@ -226,10 +261,12 @@ def replay(run, path):
     for events, why, r in out:
         run.add_tlc(r)
         for ev in events:
-            print("replayed:", json.dumps(ev))
+            print("replayed:", json.dumps({k: v for k, v in ev.items() if k != "vec"}))
         for i, w in sorted(why.items()):
-            run.report({"check": "global", "why": w.split(":")[0]}, explain04(events[i - 1], w))
+            run.report({"check": "global", "why": w.split(":")[0]},
+                       explain04(events[i - 1], w, events[i - 2] if i >= 2 else None))
         run.cov.update({"evaluations": len(events), "distinct_nontrivial": len(events),
-                        "traces_validated_against_impl": 1, "samples": events[:2],
+                        "traces_validated_against_impl": 1,
+                        "samples": [{k: v for k, v in ev.items() if k != "vec"} for ev in events[:2]],
                         "rule": "replay of recorded failing vectors"})
     return run.finish()
